@@ -9,7 +9,7 @@ A mutant is one AST-located token change (comparison / arithmetic / boolean oper
 `not` dropped, condition negated, expression statement deleted).  For each: scratch copy of /repo's working tree, the
 repository's tests must still pass (otherwise the tests already see it - not our business), then the checks mapped to the
 file run against the copy (HXMON_REPO).  Survivors are *candidates*: equivalent mutants and behaviour no property
-speaks about are sorted out by reading (see DESIGN.md 5.11).  Nothing is ever written to /repo.
+speaks about are sorted out by reading (see DESIGN.md 5.12).  Nothing is ever written to /repo.
 """
 import argparse
 import ast
